@@ -90,6 +90,7 @@ type Ctx struct {
 	constGlobals map[string]bool
 	allGhosts   map[string]bool
 	usesBSeq    bool
+	usesObjKey  bool
 	defs        map[string]string
 	paramTerms  []Value
 	smtCache    []string
